@@ -24,6 +24,26 @@ from .utils.format_output import none_as_unknown
 from .utils.compression import compression_algo_impls
 
 
+def _reject_duplicate_extensions(extensions):
+    """
+    Check that no extension type is present more than once in parsed list.
+
+    There must not be more than one extension of the same type in a given
+    extension block (RFC 8446, section 4.2, RFC 5246, section 7.4.1.4).
+    Needs to be called by the parsers so that the peer gets a fatal alert
+    for it, :py:meth:`HelloMessage.getExtension` is called too late for that.
+
+    :raises TLSIllegalParameterException: when an extension is duplicated
+    """
+    seen = set()
+    for ext in extensions:
+        if ext.extType in seen:
+            raise TLSIllegalParameterException(
+                "Duplicate extension of type {0}".format(
+                    ExtensionType.toStr(ext.extType)))
+        seen.add(ext.extType)
+
+
 class RecordHeader(object):
     """Generic interface to SSLv2 and SSLv3 (and later) record headers."""
 
@@ -634,6 +654,7 @@ class ClientHello(HelloMessage):
                 while p2.getRemainingLength() > 0:
                     ext = TLSExtension().parse(p2)
                     self.extensions += [ext]
+                _reject_duplicate_extensions(self.extensions)
             p.stopLengthCheck()
         return self
 
@@ -942,6 +963,7 @@ class ServerHello(HelloMessage):
                 else:
                     ext = TLSExtension(server=True).parse(p2)
                 self.extensions += [ext]
+            _reject_duplicate_extensions(self.extensions)
         p.stopLengthCheck()
         return self
 
@@ -1108,6 +1130,7 @@ class CertificateEntry(object):
         while not parser.atLengthCheck():
             ext = TLSExtension(cert=True).parse(parser)
             self.extensions.append(ext)
+        _reject_duplicate_extensions(self.extensions)
         parser.stopLengthCheck()
         return self
 
@@ -1313,6 +1336,7 @@ class CertificateRequest(HelloMessage):
                 # We care only for universal extensions so far
                 ext = TLSExtension().parse(sub_parser)
                 self.extensions.append(ext)
+            _reject_duplicate_extensions(self.extensions)
 
         parser.stopLengthCheck()
         return self
@@ -1994,6 +2018,7 @@ class EncryptedExtensions(HelloMessage):
             p2 = Parser(parser.getVarBytes(2))
             while p2.getRemainingLength():
                 self.extensions.append(TLSExtension(encExt=True).parse(p2))
+            _reject_duplicate_extensions(self.extensions)
 
         parser.stopLengthCheck()
         return self
@@ -2072,6 +2097,7 @@ class NewSessionTicket(HelloMessage):
         ext_parser = Parser(parser.getVarBytes(2))
         while ext_parser.getRemainingLength():
             self.extensions.append(TLSExtension().parse(ext_parser))
+        _reject_duplicate_extensions(self.extensions)
 
         parser.stopLengthCheck()
         return self
